@@ -63,13 +63,10 @@ Definition MSG_INVALID_ID : Z := -8.
 Definition MSG_INIT : list Z := [-2; -3; -4; -5; -6; -7].   (* the six PRODUCTION lines of sc_init *)
 Definition MSG_THIS_IS : Z := -1.
 
-(* sc_logf (= sc_logv) locks the mutex of the package it is GIVEN before sc_log maps unregistered
-   ids to the default package.  In the pinned configuration (SC_ENABLE_PTHREAD) locking a package
-   that is neither -1 nor registered is undefined (destroyed or out-of-bounds mutex): None. *)
+(* the mutexes that exist in the pinned configuration (SC_ENABLE_PTHREAD): the default one (-1) and
+   those of registered packages.  Locking any other id is undefined (destroyed, never initialised
+   or out-of-bounds mutex); sc_log and - since repair 622fcc2 - sc_logv map the id first. *)
 Definition lock_legal (st : lstate) (package : Z) : bool := (package =? -1) || z2b (is_reg st package).
-
-Definition logv_full (st : lstate) (package category priority msg : Z) : option (list event) :=
-  if lock_legal st package then Some (logv_st st package category priority msg) else None.
 
 (* expansion of the sc_log / sc_logf calls recorded by the macro wrappers, for a package id
    that is -1 or registered (sc_package_id) *)
@@ -84,10 +81,20 @@ Definition expand_own (st : lstate) (e : event) : list event :=
 Definition isreg_side (dbg : bool) (st : lstate) (id : Z) : list event :=
   if id <? 0 then flat_map (expand_own st) ((if dbg then w_c19_lerror_dbg else w_c19_lerror) (s_pkgid st) MSG_INVALID_ID) else [].
 
-(* sc_log as called from outside: the registration query of line 874 is evaluated only when
-   package != -1 *)
+(* events of evaluating `package != -1 && !sc_package_is_registered (package)`, the first statement
+   of sc_log and of sc_logv: the query (and its message) happens only when package != -1 *)
+Definition isreg_query (dbg : bool) (st : lstate) (package : Z) : list event :=
+  if package =? -1 then [] else isreg_side dbg st package.
+
+(* sc_log as called from outside *)
 Definition log_full (dbg : bool) (st : lstate) (package category priority msg : Z) : list event :=
-  (if package =? -1 then [] else isreg_side dbg st package) ++ log_st st package category priority msg.
+  isreg_query dbg st package ++ log_st st package category priority msg.
+
+(* sc_logf / sc_logv as called from outside.  The id is mapped to the effective package by the first
+   statement, so the sc_log called at the end receives -1 or a registered id and asks nothing more
+   that has an effect: the "Invalid package id" message appears once. *)
+Definition logv_full (dbg : bool) (st : lstate) (package category priority msg : Z) : list event :=
+  isreg_query dbg st package ++ logv_st st package category priority msg.
 
 (* --- the package table ------------------------------------------------------------------- *)
 Fixpoint first_free (t : list pkg) (i : nat) : option nat :=
@@ -127,18 +134,14 @@ Inductive op :=
 | OGenLog (package category priority msg : Z)    (* SC_GEN_LOG macro *)
 | OGenLogf (package category priority msg : Z).  (* SC_GEN_LOGF macro *)
 
-Definition expand_checked (dbg : bool) (st : lstate) (evs : list event) : option (list event) :=
-  fold_right (fun e acc =>
-    match acc with
-    | None => None
-    | Some r =>
-      let '(k, h, s, p, c, q, m) := e in
-      if k =? 3 then Some (log_full dbg st p c q m ++ r)
-      else if k =? 4 then match logv_full st p c q m with Some l => Some (l ++ r) | None => None end
-      else Some (e :: r)
-    end) (Some []) evs.
+(* expansion of the sc_log / sc_logf calls recorded by the macro wrappers, for ANY package id *)
+Definition expand_full (dbg : bool) (st : lstate) (e : event) : list event :=
+  let '(k, h, s, p, c, q, m) := e in
+  if k =? 3 then log_full dbg st p c q m
+  else if k =? 4 then logv_full dbg st p c q m
+  else [e].
 
-(* None: the library aborts the process (violated precondition) *)
+(* None: the library aborts the process (violated precondition); logging never does *)
 Definition step (dbg : bool) (st : lstate) (o : op) : option (lstate * list event) :=
   match o with
   | OSetDefaults stream handler thr =>
@@ -175,13 +178,9 @@ Definition step (dbg : bool) (st : lstate) (o : op) : option (lstate * list even
   | OTrace file prio =>
       Some (mkst (s_dthr st) (s_dhandler st) (s_stream st) (s_ident st) file prio (s_pkgid st) (s_table st), [])
   | OLog p c q m => Some (st, log_full dbg st p c q m)
-  | OLogv p c q m => match logv_full st p c q m with Some l => Some (st, l) | None => None end
-  | OGenLog p c q m =>
-      match expand_checked dbg st ((if dbg then w_c19_gen_log_dbg else w_c19_gen_log) p c q m) with
-      | Some l => Some (st, l) | None => None end
-  | OGenLogf p c q m =>
-      match expand_checked dbg st ((if dbg then w_c19_gen_logf_dbg else w_c19_gen_logf) p c q m) with
-      | Some l => Some (st, l) | None => None end
+  | OLogv p c q m => Some (st, logv_full dbg st p c q m)
+  | OGenLog p c q m => Some (st, flat_map (expand_full dbg st) ((if dbg then w_c19_gen_log_dbg else w_c19_gen_log) p c q m))
+  | OGenLogf p c q m => Some (st, flat_map (expand_full dbg st) ((if dbg then w_c19_gen_logf_dbg else w_c19_gen_logf) p c q m))
   end.
 
 Fixpoint run (dbg : bool) (st : lstate) (ops : list op) : option (lstate * list event) :=
